@@ -1,34 +1,43 @@
 #!/bin/bash
-# C20 thorough extra: replay seeded TaskSim runs under Miri (tree borrows, as upstream CI does), so
-# that undefined behaviour in the library's unsafe code (reusable_box.rs, Observable::into_shared,
-# readlock's readguard_into_ref, the unreachable_unchecked arm) is caught even when it does not show
-# up as a double drop or a leak. 16 interpreters in parallel, each a slice of run indices.
+# C20 thorough extra: replay seeded TaskSim runs under Miri, so that memory errors in the library's
+# unsafe code (reusable_box.rs, Observable::into_shared, readlock's readguard_into_ref, the
+# unreachable_unchecked arm) and in what it calls are caught even when they do not show up as a double
+# drop or a leak. 16 interpreters in parallel, each a slice of run indices. Two passes:
+#   A  aliasing checks ON (-Zmiri-tree-borrows, as upstream CI), small vectors only (`--no-big`):
+#      imbl 5.0.0's FocusMut (sort_by / retain on multi-chunk vectors) violates Tree Borrows — the
+#      dependency's matter, see DESIGN.md §7 — and would otherwise be the only thing reported;
+#   B  aliasing checks OFF (-Zmiri-disable-stacked-borrows), all runs incl. vectors of 12–80 items:
+#      use-after-free, double free, invalid or uninitialised reads, leaks of the interpreter's view.
 # usage: miri_c20.sh <seed> <runs-per-slice> <out-dir>     exit 0 clean / 1 UB or violation / 2 harness
 seed=${1:-1}; per=${2:-25}; out=${3:-/verif}
 cd /verif/tasksim || exit 2
-export MIRIFLAGS="-Zmiri-tree-borrows" TASKSIM_ANNOUNCE_RUNS=1 CARGO_NET_OFFLINE=true
-cargo +nightly miri run --offline -q -- seq-runs C20 --seed $seed --runs 1 >/dev/null 2>/tmp/miri-build-$$.log || { echo "harness error: miri build/run failed"; tail -5 /tmp/miri-build-$$.log; exit 2; }
-fams="C20 C20 C20 C20 C20 C20 C03 C03 C19 C19 C16 C16 asynccontention asynccontention C07 C13"
-i=0; pids=()
-for fam in $fams; do
-  first=$((i*per))
-  ( cargo +nightly miri run --offline -q -- seq-runs $fam --seed $seed --runs $per --secs $first > /tmp/miri-$$-$i.out 2>/tmp/miri-$$-$i.err; echo $? > /tmp/miri-$$-$i.code ) &
-  pids+=($!); i=$((i+1))
+export CARGO_NET_OFFLINE=true
+MIRIFLAGS="-Zmiri-tree-borrows" cargo +nightly miri run --offline -q -- seq-runs C20 --seed $seed --runs 1 >/dev/null 2>/tmp/miri-build-$$.log || { echo "harness error: miri build/run failed"; tail -5 /tmp/miri-build-$$.log; exit 2; }
+famsA="C20 C20 C20 C03 C19 C16 asynccontention C13"
+famsB="C20 C20 C20 C03 C19 C16 asynccontention C07"
+i=0
+for pass in A B; do
+  if [ $pass = A ]; then fams=$famsA; flags="-Zmiri-tree-borrows"; nobig="--no-big"; else fams=$famsB; flags="-Zmiri-disable-stacked-borrows"; nobig=""; fi
+  for fam in $fams; do
+    first=$((i*per))
+    ( MIRIFLAGS="$flags" cargo +nightly miri run --offline -q -- seq-runs $fam --seed $seed --runs $per --secs $first --announce $nobig > /tmp/miri-$$-$i.out 2>/tmp/miri-$$-$i.err; echo "$? $pass $fam $first $flags $nobig" > /tmp/miri-$$-$i.code ) &
+    i=$((i+1))
+  done
 done
 wait
-bad=0; total=0; i=0
-for fam in $fams; do
-  code=$(cat /tmp/miri-$$-$i.code); total=$((total+per))
+bad=0; total=0
+for f in /tmp/miri-$$-*.code; do
+  read code pass fam first flags nb < $f; total=$((total+per)); k=${f%.code}
   if [ "$code" != 0 ]; then
-    last=$(grep -E "^run [0-9]+" /tmp/miri-$$-$i.out | tail -1 | cut -d' ' -f2)
-    echo "MIRI: family=$fam seed=$seed run=$last exit=$code: $(grep -E 'Undefined Behavior|error:' /tmp/miri-$$-$i.err | head -2 | tr '\n' ' ' | cut -c1-300)"
+    last=$(grep -E "^run [0-9]+" $k.err | tail -1 | cut -d' ' -f2)
+    echo "MIRI: pass=$pass family=$fam seed=$seed run=${last:-?} exit=$code: $(grep -E 'Undefined Behavior|^error' $k.err | head -2 | tr '\n' ' ' | cut -c1-300)"
     mkdir -p $out/replays
-    printf '{"property":"C20","engine":"miri","family":"%s","seed":%s,"run":%s,"command":"cd /verif/tasksim && MIRIFLAGS=-Zmiri-tree-borrows cargo +nightly miri run --offline -q -- seq-runs %s --seed %s --runs 1 --secs %s"}\n' $fam $seed ${last:-0} $fam $seed ${last:-0} > $out/replays/C20-miri-$seed-$fam-${last:-0}.json
-    echo "VIOLATION property=C20 replay=$out/replays/C20-miri-$seed-$fam-${last:-0}.json"
+    rp=$out/replays/C20-miri-$seed-$pass-$fam-${last:-0}.json
+    printf '{"property":"C20","engine":"miri","pass":"%s","family":"%s","seed":%s,"run":%s,"command":"cd /verif/tasksim && MIRIFLAGS=%s cargo +nightly miri run --offline -q -- seq-runs %s --seed %s --runs 1 --secs %s %s"}\n' $pass $fam $seed ${last:-0} "$flags" $fam $seed ${last:-0} "$nb" > $rp
+    echo "VIOLATION property=C20 replay=$rp"
     bad=1
   fi
-  i=$((i+1))
 done
-echo "miri: $total runs in 16 interpreters (families: $fams), undefined behaviour or violations: $bad"
+echo "miri: $total runs in 16 interpreters (pass A, tree borrows, small vectors: $famsA; pass B, aliasing checks off, all sizes: $famsB), undefined behaviour or violations: $bad"
 rm -f /tmp/miri-$$-* /tmp/miri-build-$$.log
 exit $bad
